@@ -39,6 +39,20 @@ that join non-neighbours (whole scaffolds fused into one, halves of a cut scaffo
 scaffolds, scaffolds absent from the map, trailing contigs inside the final partial texel), read the assembly
 files the tool WROTE with the small readers below (no project code) and judge them with the same oracle, JOIN being
 the (200, scaffold) of the statement.  A run whose exit status is not 0 did not complete and is not judged.
+
+Row order and contig names (`renamed_contigs`, `leftover_order_*` below).  The statement quantifies over all input
+assemblies: nothing says that the rows of an input scaffold are listed in the order of their (contig name, start, end).
+A scaffold that an earlier curation round reversed lists the pieces of one contig with DESCENDING coordinates; contigs
+joined into a scaffold carry names in any order (ctg_b before ctg_a; ctg9 before ctg10, which sort the other way round
+as strings).  The shared generators only produce rows whose names / coordinates ascend, so this module re-labels the
+contigs of an input (same scaffolds, row lengths, gaps and strands: the same map fits) in four ways - names descending,
+pieces of one sequence with descending coordinates, numbered names running past nine, seeded shuffle - and
+  * enumerates scaffolds whose 2-4 short contigs are NOT shown by the map (the whole scaffold is shorter than a texel and
+    absent, or the contigs trail a long contig inside the final partial texel): every order of the names / of the
+    coordinates x separators (abutting, one gap, a run of two) x strand patterns x the ways the map can show the rest;
+  * runs every case of the other streams in which some scaffold has >= 2 contigs that no piece of the map shows a second
+    time (thorough: a third time) with re-labelled contigs.
+The oracle is the one above: contigs the map does not show must still come out with no new direct adjacency.
 """
 
 import itertools
@@ -422,6 +436,190 @@ def random_gap_run_inputs(rng, n):
             sp = [rng.choice((1, -1)) for _ in range(k)]
             inp.append(gap_run_scaffold(f"scaffold_{si + 1}", lt, sp, runs, lead, trail, rng.choice(("own", "fasta", "offset")), tag=str(si + 1)))
         yield inp
+
+
+# --------------------------------------------------------------------------------------------------
+# row order is not name order: re-labelled contigs, and scaffolds whose contigs the map does not show
+# --------------------------------------------------------------------------------------------------
+
+NAME_ORDERS = ("names-descending", "pieces-descending", "numbers-past-nine", "shuffled")
+
+
+def relabel(rows, tag, order, names="distinct"):
+    """
+    the rows with other contig labels; lengths, strands, gap rows and tags stay.  `order` is a permutation of the
+    contig numbers 0..k-1: the contig on row position j gets the label of rank order[j] in (name, start) order.
+      names = "distinct"  rank r is called ctg<tag><r-th letter> and runs 1..L
+      names = "pieces"    all contigs are pieces of the sequence old<tag>; rank r lies at 1000 * r + 1 .. 1000 * r + L,
+                          except that two pieces on the SAME strand separated by gap rows whose ranks follow each other
+                          in reading direction of that strand are contiguous in old<tag> (a contig an earlier round split)
+      names = "numbers"   rank r is called ctg<tag>n<8 + r> (numeric order and string order differ past nine)
+    """
+    out = []
+    j = 0
+    frs = [r for r in rows if r[0] == "F"]
+    starts = {}
+    if names == "pieces":
+        # lay the ranks out on old<tag> from left to right
+        by_rank = sorted(range(len(frs)), key=lambda x: order[x])
+        pos = 0
+        for n, x in enumerate(by_rank):
+            if n:
+                px = by_rank[n - 1]
+                gap_between = abs(px - x) == 1 and frs[px][4] == frs[x][4] and (x - px) * frs[x][4] > 0
+                # pieces that follow each other on row positions AND in the sequence, read in strand direction
+                pos += 0 if gap_between and separated_by_gap(rows, min(px, x)) else 1000 - (pos % 1000)
+            starts[x] = pos + 1
+            pos += pg.row_len(frs[x])
+    for r in rows:
+        if r[0] == "G":
+            out.append(list(r))
+            continue
+        ln = pg.row_len(r)
+        rank = order[j]
+        if names == "pieces":
+            out.append(["F", f"old{tag}", starts[j], starts[j] + ln - 1, r[4], list(r[5])])
+        elif names == "numbers":
+            out.append(["F", f"ctg{tag}n{8 + rank}", 1, ln, r[4], list(r[5])])
+        else:
+            out.append(["F", f"ctg{tag}{chr(97 + rank)}", 1, ln, r[4], list(r[5])])
+        j += 1
+    return out
+
+
+def separated_by_gap(rows, j):
+    """contig number j and contig number j + 1 of the rows have at least one gap row between them"""
+    n = -1
+    for i, r in enumerate(rows):
+        if r[0] == "F":
+            n += 1
+            if n == j:
+                return i + 1 < len(rows) and rows[i + 1][0] == "G"
+    return False
+
+
+def renamed_contigs(inp, style, rng):
+    """
+    the same input assembly - scaffold names, row lengths, gap rows and strands unchanged, so every map of the one is a
+    map of the other - with the contigs of every scaffold re-labelled so that row order is not (name, start) order
+    """
+    out = []
+    for si, sc in enumerate(inp):
+        k = sum(1 for r in sc["rows"] if r[0] == "F")
+        tag = str(si + 1)
+        if style == "names-descending":
+            rows = relabel(sc["rows"], tag, list(range(k - 1, -1, -1)), "distinct")
+        elif style == "pieces-descending":
+            rows = relabel(sc["rows"], tag, list(range(k - 1, -1, -1)), "pieces")
+        elif style == "numbers-past-nine":
+            rows = relabel(sc["rows"], tag, list(range(k)), "numbers")
+        else:
+            order = list(range(k))
+            rng.shuffle(order)
+            rows = relabel(sc["rows"], tag, order, rng.choice(("distinct", "pieces")))
+        out.append({"name": sc["name"], "rows": rows})
+    return out
+
+
+def max_unshown_contigs(case):
+    """the largest number of contigs of one input scaffold of which no base is shown by any piece of the map"""
+    shown = {}
+    for sc in case["map"]["scaffolds"]:
+        for p in sc:
+            shown.setdefault(p[0], []).append((p[1], p[2]))
+    best = 0
+    for s in case["input"]:
+        spans = shown.get(s["name"], ())
+        pos = 0
+        n = 0
+        for r in s["rows"]:
+            ln = pg.row_len(r)
+            if r[0] == "F" and not any(a <= pos + ln and pos + 1 <= b for a, b in spans):
+                n += 1
+            pos += ln
+        best = max(best, n)
+    return best
+
+
+LEFTOVER_SEPARATORS = ((), (C10,), (S3, C1))
+
+
+def leftover_order_inputs(tier):
+    """
+    Inputs with contigs the map will not show, at 33.3 bp per texel (thorough: also at 10):
+      scaffold_1   one contig of 150 bases, in `trailing` geometries followed by 2-3 contigs of 1-2 bases which lie inside
+                   the final partial texel when PretextView rounds the scaffold down
+      scaffold_2   in `absent` geometries 2-4 contigs of 1-3 bases: shorter than a texel, absent from the map
+    The short contigs get EVERY order of (name, start) rank against row order (all k! permutations; quick: 4 contigs a seeded
+    6 of the 24), as distinct names and as pieces of one sequence, plus numbered names past nine in row order; separators
+    between them (abutting / one gap / a run of two gap rows) and strand patterns: all combinations in the thorough tier,
+    rotating in the quick tier.  Yields (texel size, input).
+    """
+    quick = tier == "quick"
+    n = 0
+    for bpt in (33.3,) if quick else (33.3, 10.0):
+        small = (2, 1, 2, 3) if bpt > 30 else (1, 2, 1, 1)
+        seps = LEFTOVER_SEPARATORS if bpt > 30 else ((), (C1,), (C1, S1))
+        for k in (2, 3, 4):
+            perms = list(itertools.permutations(range(k)))
+            if k == 4:
+                perms = perms[1::4] if quick else perms
+            sep_sets = list(itertools.product(seps, repeat=k - 1))
+            strand_sets = pg.strand_patterns(k)
+            for perm in perms:
+                for names in ("distinct", "pieces", "numbers"):
+                    if names == "numbers" and list(perm) != list(range(k)):
+                        continue
+                    combos = [(a, b) for a in sep_sets for b in strand_sets]
+                    if quick or k == 4:
+                        combos = [combos[(n + 5 * i) % len(combos)] for i in range(2)]
+                    for sep_set, strands in combos:
+                        for where in ("absent", "trailing", "both"):
+                            n += 1
+                            if quick and where == "both" and n % 3:
+                                continue
+                            kk = k if where != "trailing" or k < 4 else 3
+                            lens = small[:kk]
+                            if bpt < 30 and where != "absent" and sum(lens) + sum(g[0] for r in sep_set[: kk - 1] for g in r) + 1 > 9:
+                                continue
+                            short = gap_run_scaffold("x", lens, strands[:kk], list(sep_set[: kk - 1]))["rows"]
+                            pm = [sorted(perm[:kk]).index(x) for x in perm[:kk]]
+                            s1 = [pg.F("ctg1a", 1, 150, (1, -1)[n % 2])]
+                            inp = []
+                            if where in ("trailing", "both"):
+                                s1 = s1 + [pg.G(*(C1 if n % 4 else S3))] + relabel(short, "1t", pm, names)
+                            inp.append({"name": "scaffold_1", "rows": s1})
+                            if where in ("absent", "both"):
+                                inp.append({"name": "scaffold_2", "rows": relabel(short, "2", pm, names)})
+                            yield bpt, inp
+
+
+def leftover_order_cases(tier):
+    """
+    the maps for leftover_order_inputs: scaffold_1 whole at floor (its trailing contigs are not shown) and - no trailing
+    contigs - at ceil, forward / reversed, unpainted / painted; cut in its middle with the halves swapped; scaffold_2 never
+    in the map.  One of them per input in the quick tier (rotating), all in the thorough tier.
+    """
+    quick = tier == "quick"
+    i = 0
+    for bpt, inp in leftover_order_inputs(tier):
+        s1 = inp[0]
+        trailing = len(s1["rows"]) > 1
+        maps = []
+        for rounding in ("floor",) if trailing else ("floor", "ceil"):
+            (whole,) = pg.pieces_of(s1, bpt, rounding, ())
+            n = pg.texels(pg.rows_len(s1["rows"]), bpt, rounding)
+            a, b = pg.pieces_of(s1, bpt, rounding, (n // 2,))
+            for painted in ([], ["Painted"]):
+                maps.append([[[*whole, 1, painted]]])
+                maps.append([[[*whole, -1, painted]]])
+                maps.append([[[*b, 1, painted], [*a, -1, painted]]])
+                maps.append([[[*b, -1, painted]], [[*a, 1, painted]]])
+        for mi, scaffolds in enumerate(maps):
+            i += 1
+            if quick and mi != i % len(maps):
+                continue
+            yield {"input": inp, "map": {"bpt": bpt, "scaffolds": scaffolds}, "prefix": "SUPER_", "via": pg.pick_via(inp, i)}
 
 
 # --------------------------------------------------------------------------------------------------
